@@ -106,7 +106,12 @@ async fn handle_stream(
     log_id: &log_utils::IdChain<u64>,
 ) -> io::Result<()> {
     let (request, respond) = stream.split();
-    log_id!(trace, log_id, "Received request: {:?}", request.request());
+    log_id!(
+        trace,
+        log_id,
+        "Received request: {:?}",
+        crate::net_utils::scrub_request(request.request())
+    );
 
     let settings = context.settings.reverse_proxy.as_ref().unwrap();
     // The origin is a part of the endpoint's own configuration (typically a local service), so
@@ -143,7 +148,7 @@ async fn handle_stream(
         trace,
         log_id,
         "Sending translated request: {:?}",
-        request_headers
+        crate::net_utils::scrub_request(&request_headers)
     );
     server_sink.write_all(encoded).await?;
 
